@@ -5,7 +5,8 @@ set -u
 patch="$(readlink -f "$1")"; shift
 cd /verif
 if ! git -C /repo diff --quiet; then echo "refusing: /repo has uncommitted changes"; exit 2; fi
-restore() { git -C /repo checkout -- . ; }
+keep="$(mktemp -d /dev/shm/fmlsim-evidence.XXXXXX)"; cp -a /verif/evidence/. "$keep"/
+restore() { git -C /repo checkout -- . ; cp -a "$keep"/. /verif/evidence/ ; rm -rf "$keep" ; }
 trap restore EXIT
 git -C /repo apply "$patch" || { echo "patch does not apply"; exit 2; }
 tier="${TIER:-quick}"
